@@ -913,6 +913,15 @@ fn c10(r: &Runner) {
         pairs(r, &format!("({d2})^2"), bits, &u2, &u2, &[Op::reduce_mod, Op::inv_mod]);
         related_pairs(r, bits, &[Op::reduce_mod, Op::inv_mod]);
     }
+    for &bits in big_widths() {
+        let (mut u, ud) = pick_capped(bits, 24, &[]);
+        u.extend(pprime(bits));
+        u.sort_by(|a, b| a.iter().rev().cmp(b.iter().rev()));
+        u.dedup();
+        triples(r, &format!("({ud}+P')^3 = {}^3", u.len()), bits, &u, &u, &u, &[Op::add_mod, Op::mul_mod]);
+        let (u2, d2) = pick_capped(bits, 90, &[]);
+        pairs(r, &format!("({d2})^2"), bits, &u2, &u2, &[Op::reduce_mod, Op::inv_mod]);
+    }
 }
 
 fn c13(r: &Runner) {
